@@ -43,8 +43,16 @@ def gen_domain(rng, untyped=False):
     nt = rng.randint(1, 6)
     tnames = [] if untyped else ["agent"] + rng.sample(TYPE_POOL, nt)
     types = []
+    # shape of the hierarchy: a forest of random depth, or (40 %) mostly chains: each type below the one before it, so
+    # that hierarchies 3-5 levels deep are common
+    deep = rng.random() < 0.4
     for i, t in enumerate(tnames):
-        parent = "object" if i == 0 or rng.random() < 0.45 else rng.choice(tnames[:i])
+        if i == 0:
+            parent = "object"
+        elif deep:
+            parent = tnames[i - 1] if rng.random() < 0.7 else rng.choice(tnames[:i] + ["object"])
+        else:
+            parent = "object" if rng.random() < 0.45 else rng.choice(tnames[:i])
         types.append((t, parent))
     agent_types = [t for t, _ in types if is_sub(types, t, "agent")] or ["object"]
     # constants: of a declared type or of the root type (written `- object` or, at the end of the list, bare);
@@ -192,6 +200,29 @@ def linear_extension(rng, types, wanted):
     return out
 
 
+TYPE_STYLES = ["parents_first", "children_first", "shuffled"]
+
+
+def declare_types(rng, types, wanted, style=None, implicit=None, dangling=()):
+    """the entries of one file's (:types ...) section, in one of the ways the language allows to write the same
+    hierarchy: parents before their children (a linear extension), every child before its parent, or any order;
+    `implicit`: object-parented types that are some listed type's parent are (each with probability 0.7) not declared at
+    all - they stand on right-hand sides only (`truck - vehicle` alone makes vehicle a child of object);
+    `dangling`: types whose declaration this file leaves to another file although it names them as a parent"""
+    tl = linear_extension(rng, types, wanted)
+    style = style or rng.choice(TYPE_STYLES)
+    if style == "children_first":
+        tl.reverse()
+    elif style == "shuffled":
+        rng.shuffle(tl)
+    parents = {p for _, p in tl}
+    if implicit is None:
+        implicit = rng.random() < 0.35
+    if implicit:
+        tl = [x for x in tl if not (x[1] == "object" and x[0] in parents and rng.random() < 0.7)]
+    return [x for x in tl if not (x[0] in dangling and x[0] in parents)]
+
+
 def render_typed_list(rng, pairs, untyped=False):
     """`a b - t` groups for consecutive names of the same type (sometimes one per name).  Names of the root type:
     written `- object` where they stand, or (a random subset, or all names of an untyped file) moved to the END of the
@@ -223,7 +254,8 @@ def render_domain(rng, dom, view=None, overrides=None):
                 "funcs": {f for f, _ in dom["funcs"]}, "consts": {c for c, _ in dom["consts"]},
                 "types": {t for t, _ in dom["types"]}, "reqs": dom["reqs"]}
     types = [(t, ov.get(("types", t), p)) for t, p in dom["types"]]
-    tl = linear_extension(rng, types, view["types"])
+    tl = declare_types(rng, types, view["types"], view.get("type_style"), view.get("type_implicit"),
+                       view.get("type_dangling", ()))
     # object-parented leaf types may be written bare at the end
     bare = []
     if rng.random() < 0.3:
@@ -315,6 +347,25 @@ def inject_domain_conflict(rng, dom, views):
                 continue
             return i, {("types", name): rng.choice(sorted(others))}, "type"
     return None
+
+
+def inject_dangling_parent(rng, dom, views):
+    """one file names a type of depth >= 1 as the parent of a type it declares and leaves that parent's own declaration
+    to another file (read alone, the file makes it a child of object: the files disagree about it).  Returns the file
+    index or None; the view gets `type_dangling`."""
+    par = dict(dom["types"])
+    options = []
+    for i, v in enumerate(views):
+        for t in sorted(v["types"]):
+            p = par.get(t)
+            if p and p != "object" and par.get(p, "object") != "object" and \
+                    any(j != i and p in w["types"] for j, w in enumerate(views)):
+                options.append((i, p))
+    if not options:
+        return None
+    i, p = rng.choice(options)
+    views[i]["type_dangling"] = {p}
+    return i
 
 
 # ------------------------------------------------------------------------------------------------
@@ -564,13 +615,21 @@ def generated_directories(rng, tier):
         mode = rng.choice(["mixed"] * 7 + ["full", "full", "disjoint"])
         views = split_domain(rng, dom, n, mode)
         conflict = inject_domain_conflict(rng, dom, views) if rng.random() < 0.2 else None
+        if conflict is None and n >= 2 and rng.random() < 0.15:
+            i = inject_dangling_parent(rng, dom, views)
+            if i is not None:
+                conflict = (i, None, "type (parent declared by another file only)")
         dfiles = {}
         for i, v in enumerate(views):
             ov = conflict[1] if conflict and conflict[0] == i else None
             dfiles["domain-ag%d.pddl" % agents[i]] = render_domain(rng, dom, v, ov)
         prob = gen_problem(rng, dom)
         pviews = split_problem(rng, prob, n, rng.choice([mode, "mixed"]))
-        pconflict = inject_problem_conflict(rng, prob, pviews, dom) if rng.random() < 0.2 else None
+        # "one file declares a shared object with a SUBTYPE of its type" is judged against the generator's hierarchy: only
+        # when the files agree on it (under a type conflict the combined domain's subtype relation depends on the file found
+        # last, and the object may stop being a legal argument of the facts / goals other files state about it)
+        type_conflict = bool(conflict and conflict[2].startswith("type"))
+        pconflict = inject_problem_conflict(rng, prob, pviews, None if type_conflict else dom) if rng.random() < 0.2 else None
         pfiles = {}
         for i, v in enumerate(pviews):
             ov = pconflict[1] if pconflict and pconflict[0] == i else None
@@ -782,7 +841,7 @@ def dcase_lit(job, res):
     fresh = cstrs(dict.fromkeys([k for k, _ in res["default_after"]["fresh"]] + [k for k, _ in res["default_end"]["fresh"]]))
     default = cstrs(dict.fromkeys([k for k, _ in res["default_after"]["DEFAULT_TYPES"]] +
                                   [k for k, _ in res["default_end"]["DEFAULT_TYPES"]]))
-    return "(CD (DC %s %s %s %s %s %s %s %s %s %s))" % (
+    return "(CD (DC %s %s %s %s %s %s %s %s %s %s %s))" % (
         cpairs(res["default_before"]["fresh"]), cbool(job["dummy"]),
         clist(obs_lit(r, domain_lit) for r in res["dfiles"]), obs_lit(res["dobs"], domain_lit),
         fresh, default,
@@ -790,7 +849,14 @@ def dcase_lit(job, res):
         rt_lit(res, "dobs", "drt", domain_lit),
         ("(Some (%s, %s))" % (obs_lit(res["dobs2"], domain_lit), rt_lit(res, "dobs2", "drt2", domain_lit))
          if "dobs2" in res else "None"),
-        opt_lit(res.get("dexpect"), domain_lit))
+        opt_lit(res.get("dexpect"), domain_lit),
+        clist("(%d%%N,%s,%s)" % (tag, cpairs(d["types"]), cpairs(d["sub"])) for tag, d in observed_domains(res)))
+
+
+def observed_domains(res):
+    """every Domain object the job looked at after the call: (what it is, its dump)"""
+    # 0 the combination, 1 its re-parsed export, 2 / 3 the same with the other dummy setting (Corr/C17.v: sub_tag)
+    return [(tag, res[k]["ok"]) for tag, k in enumerate(("dobs", "drt", "dobs2", "drt2")) if "ok" in res.get(k, {})]
 
 
 def pcase_lit(job, res):
@@ -876,7 +942,9 @@ def drun_fields(T, job, res):
             e_names(T, res["default_after"]["DEFAULT_TYPES"], res["default_end"]["DEFAULT_TYPES"]),
             e_others(T, res, ("others_expected", "others_before", "others_mid", "others_again_mid", "others_after", "others_again")),
             rt_lit(res, "dobs", "drt", dl),
-            ("(Some (%s, %s))" % (obs_lit(res["dobs2"], dl), rt_lit(res, "dobs2", "drt2", dl)) if "dobs2" in res else "None"))
+            ("(Some (%s, %s))" % (obs_lit(res["dobs2"], dl), rt_lit(res, "dobs2", "drt2", dl)) if "dobs2" in res else "None"),
+            clist("(%d,EA t %s,EA t %s)" % (tag, e_pairs(T, d["types"]), e_pairs(T, d["sub"]))
+                  for tag, d in observed_domains(res)))
 
 
 def prun_fields(T, job, res):
